@@ -70,9 +70,9 @@ def find_first_unpair_closed_par(str_: str) -> Optional[int]:
 
 def normalize_name(name: str) -> str:
     """
-    Clean up [] and " characters from the given name
+    Clean up [], " and ` characters from the given name
     """
-    clean_up_re = r'[\[\]"]'
+    clean_up_re = r'[\[\]"`]'
     return re.sub(clean_up_re, "", name).lower()
 
 
